@@ -26,6 +26,7 @@ STR_SHIMS = [
     ("starts_with", "shim_str_starts_with", lambda a: a.startswith('"')),
     ("ends_with", "shim_str_ends_with_char", lambda a: a.startswith("'")),
     ("ends_with", "shim_str_ends_with_chars", lambda a: a.startswith("[")),
+    ("contains", "shim_str_contains_char", lambda a: a.startswith("'")),
     ("split_once", "shim_str_split_once_char", lambda a: a.startswith("'")),
     ("split_once", "shim_str_split_once_str", lambda a: a.startswith('"')),
     ("rsplit_once", "shim_str_rsplit_once_char", lambda a: a.startswith("'")),
